@@ -1,0 +1,33 @@
+//go:build verif
+
+package ttlcache
+
+import (
+	kclock "k8s.io/utils/clock"
+)
+
+// VerifNewCache is NewCache with an injected clock (the clock option is unexported).
+func VerifNewCache[V any](opts CacheOptions, clock kclock.WithTicker) *Cache[V] {
+	opts.clock = clock
+	return NewCache[V](opts)
+}
+
+// VerifKeys returns the keys currently stored in the map (expired or not), in map order.
+func (c *Cache[V]) VerifKeys() []string {
+	keys := []string{}
+	c.m.ForEach(func(k string, _ cacheEntry[V]) bool {
+		keys = append(keys, k)
+		return true
+	})
+	return keys
+}
+
+// VerifCleanerExited reports whether the background cleanup goroutine has returned.
+func (c *Cache[V]) VerifCleanerExited() bool {
+	select {
+	case <-c.runningCh:
+		return true
+	default:
+		return false
+	}
+}
